@@ -384,9 +384,10 @@ for e in all_entries():
     _first = e.t.comps[0][1].kind if e.t.comps else (e.t.elem.kind if e.t.elem is not None else None)
     if e.has("constructed") and _first == "INT":
         OBLIGATIONS.append(entry_obl("sharing", sharing, e, extra={"mutate": B}, narrow=True, budget=90, extra_shards=[fix], tiers=tiers))
-    OBLIGATIONS.append(entry_obl("history_indep", history_indep, e, extra={"n_prior": I(0, 2), "p0": I(0, CALLS + READS - 1), "p1": I(0, CALLS + READS - 1), "which": I(0, CALLS - 1)},
+    OBLIGATIONS.append(entry_obl("history_indep", history_indep, e, extra={"n_prior": I(0, 2), "p0": I(0, CALLS + READS - 1), "p1": I(0, CALLS - 1), "which": I(0, CALLS - 1)},
+                                 extra_thorough={"p1": I(0, CALLS + READS - 1)},
                                  narrow=True, budget=120, extra_shards=[dict(fix, which=C(w)) for w in (1, 3, 4, 6, 8)],
-                                 tiers=("quick", "thorough") if e.id in ("seq", "set_mixed", "seqof_int", "choice", "bits", "int", "seq_optc") else ("thorough",)))
+                                 tiers=("quick", "thorough") if e.id in ("seq", "set_mixed", "seqof_int", "choice", "bits", "int") else ("thorough",)))
     OBLIGATIONS.append(entry_obl("debug_flag", debug_flag, e, extra={"which": I(0, CALLS - 1)}, narrow=True, budget=120,
                                  extra_shards=[dict(fix, which=C(w)) for w in range(CALLS)],
                                  tiers=("quick", "thorough") if e.id in ("seq", "set_mixed", "seqof_int", "choice.E", "bits", "octs", "seq_any", "seq_optc", "seq_any_def") else ("thorough",)))
